@@ -53,8 +53,16 @@ def build(rng, cname, ctext, ctx, nl, with_multiline_string, with_filters):
         lines.append(t.format(n=n))
         if with_multiline_string and rng.random() < 0.2:
             k = rng.randint(1, 3)
-            shape = rng.randrange(5)
-            if shape == 0:
+            # (a char literal holds exactly one character, so the raw line break must be a bare LF)
+            shape = rng.randrange(7 if nl == "\n" else 5)
+            if shape == 5:
+                # a char literal holding a raw line break
+                lines.append("let mc%d = '" % n)
+                lines.append("';")
+            elif shape == 6:
+                lines.append("let mb%d = b'" % n)
+                lines.append("';")
+            elif shape == 0:
                 # banner style: the literal starts and ends with a line break
                 lines.append("let ms%d = \"" % n)
                 for j in range(k):
